@@ -60,7 +60,7 @@ Sent(m, code, mcast) ==
 ErrSent(m, code, mcast) == Sent(m, code, mcast) \cup (IF mcast THEN {<<"none">>} ELSE {<<"msg", code>>})
 
 Out(h, r) == [h |-> h, r |-> r]
-Outs(h, R) == {Out(h, r) : r \in R}
+Outs(h, RR) == {Out(h, r) : r \in RR}
 
 Decide(m, tb, mcast) ==
   IF ~IsReqCode(m.code) /\ Class(m.code) \in {1, 6, 7} THEN {Out(<< >>, IF m.ty = CON /\ ~mcast THEN <<"rst">> ELSE <<"none">>)}
